@@ -473,8 +473,8 @@ def digits(s):
     return [DIG[c] for c in s.upper()]
 
 
-def write_fasta(path, recs, names=None, wrap=None, gz=False):
-    """recs: list of str."""
+def write_fasta(path, recs, names=None, wrap=None, gz=False, crlf=False):
+    """recs: list of str. crlf: DOS line ends (files that went through a Windows editor)."""
     out = []
     for i, r in enumerate(recs):
         out.append(">%s" % (names[i] if names else "r%d" % i))
@@ -483,7 +483,7 @@ def write_fasta(path, recs, names=None, wrap=None, gz=False):
                 out.append(r[j:j + wrap])
         else:
             out.append(r)
-    data = ("\n".join(out) + "\n").encode()
+    data = (("\r\n" if crlf else "\n").join(out) + ("\r\n" if crlf else "\n")).encode()
     if gz == "multi":
         # several gzip members one after the other (what `cat a.gz b.gz` or block-gzip tools produce); cut anywhere
         cuts = sorted({len(data) // 3, (2 * len(data)) // 3, min(len(data), 7)})
